@@ -172,7 +172,7 @@ class Pshuffle(ListPattern):  # Pshuf
         bi.shuffle(slist)
         for _ in bi.counter(self.repeats):
             for item in slist:
-                inval = yield from stm.embed(item)
+                inval = yield from stm.embed(item, inval)
         return inval
 
 
